@@ -337,6 +337,18 @@ pub fn apply_fault(image: &[u8], f: &Fault, hlen: usize, chunk: usize, other: Op
         }
         Fault::Garbage { k, seed } => img.extend(crate::rng::Rng::new(*seed).bytes(*k)),
         Fault::RawBytes { n, seed } => img = crate::rng::Rng::new(*seed).bytes(*n),
+        Fault::Fill { at, len, val } => {
+            for i in 0..*len {
+                if let Some(b) = img.get_mut(at + i) {
+                    *b = *val;
+                }
+            }
+        }
+        Fault::Multi { faults } => {
+            for g in faults {
+                img = apply_fault(&img, g, hlen, chunk, other);
+            }
+        }
         Fault::ChunkSwap { i, j } => {
             let c = chunks(&img);
             if *i < c.len() && *j < c.len() && i != j {
@@ -406,5 +418,7 @@ pub fn fault_kind(f: &Fault) -> &'static str {
         Fault::DropTail { .. } => "drop-tail",
         Fault::Garbage { .. } => "garbage-tail",
         Fault::RawBytes { .. } => "raw-bytes",
+        Fault::Fill { .. } => "field-fill",
+        Fault::Multi { .. } => "compound",
     }
 }
